@@ -228,10 +228,10 @@ def applyContinuation (cur : Anns) (r : FieldsResult) : Anns :=
 
 /-! ### the writer -/
 
-/-- one iteration of the writer's loop over a dict's items -/
+/-- one iteration of the writer's loop over a dict's items (`if value is not None:`) -/
 def dictStep (acc : Str) (kv : Str × Option Str) : Str :=
   match kv.2 with
-  | some v => if v.isEmpty then acc ++ kv.1 ++ [' '] else acc ++ kv.1 ++ '=' :: v ++ [' ']
+  | some v => acc ++ kv.1 ++ '=' :: v ++ [' ']
   | none => acc ++ kv.1 ++ [' ']
 
 /-- options part of one serialized annotation (`None` = bare `(name)`) -/
